@@ -805,9 +805,8 @@ func genClusterScript(r *common.Rng, tier string) (cscript, bool) {
 			if nm > 1 {
 				members[j], hasData[j] = false, false
 			} else {
-				// the last peer cannot leave; it is down now: bring it back and stop there
+				// the last peer cannot leave (and keeps its data); it is down now: bring it back
 				s.ops = append(s.ops, fmt.Sprintf("restart@%d", j))
-				return s, repin
 			}
 		default:
 			s.ops = append(s.ops, fmt.Sprintf("restart@%d", pick()))
